@@ -17,8 +17,8 @@ Proof.
   set (st1 := set_t_cnt st (S (t_cnt st))).
   destruct (t_waiter st1) as [f|]; [|reflexivity].
   unfold fut_cancel. pose proof (same_fut_finish st1 f (FCanc m)) as S.
-  destruct (fut_finish st1 f (FCanc m)) as [st2 ok]. cbn [fst] in S. destruct S.
-  unfold fsame. destruct ok; cbn [g_floor set_t_msg set_t_must]; rewrite sm_floor0; reflexivity.
+  destruct (fut_finish st1 f (FCanc m)) as [st2 ok]. cbn [fst] in S. pose proof (sm_floor _ _ S) as Hf.
+  unfold fsame. destruct ok; cbn [g_floor set_t_msg set_t_must]; rewrite Hf; reflexivity.
 Qed.
 Lemma fsame_upd_scope : forall st k f, fsame st (upd_scope st k f). Proof. reflexivity. Qed.
 Lemma fsame_deliver_arm : forall st k r, fsame st (deliver_arm st k r).
@@ -77,7 +77,9 @@ Qed.
 
 Lemma owed_le_sum : forall l k, owed (nth k l dummy_s) <= owed_sum l.
 Proof.
-  induction l as [|a l IH]; intros k; destruct k; simpl; try lia. specialize (IH k). lia.
+  induction l as [|a l IH]; intros k.
+  - destruct k; cbn; lia.
+  - destruct k; cbn [nth owed_sum]; [lia|]. specialize (IH k). lia.
 Qed.
 
 Lemma fsame_scope_exit : forall st k exc, acct st -> fsame st (fst (scope_exit st k exc)).
@@ -124,13 +126,13 @@ Qed.
 Lemma fsame_exec : forall st p, fsame st (exec st p).
 Proof.
   intros st p. destruct p; unfold exec; try reflexivity.
-  - destruct d; [apply fsame_do_yield|].
+  - destruct d; [eapply fsame_trans; [|apply fsame_do_yield]; reflexivity|].
     destruct (new_fut (emit st (EvStart id (time st)))) as [st1 f] eqn:E1.
     destruct (call_at st1 (time st1 + S d) (HSetRes f)) as [st2 h] eqn:E2.
     eapply fsame_trans; [|apply fsame_do_yield]. unfold new_fut in E1. inversion E1; subst.
     unfold call_at in E2. inversion E2; subst. reflexivity.
-  - apply fsame_do_yield.
-  - apply fsame_do_yield.
+  - eapply fsame_trans; [|apply fsame_do_yield]; reflexivity.
+  - eapply fsame_trans; [|apply fsame_do_yield]; reflexivity.
   - pose proof (fsame_scope_enter st pre (match delay with Some d => Some (time st + d) | None => None end)) as F.
     destruct (scope_enter st pre _) as [st1 sid]. cbn [fst] in F. exact F.
   - destruct (nth_scope st k); [apply fsame_scope_cancel|reflexivity].
@@ -184,7 +186,7 @@ Proof.
     { pose proof (same_observe_resumption (set_frames st2 k2) k2 v') as []. unfold fsame in *. simpl in *. congruence. }
     destruct k2 as [|fr k']; [exact F3|]. destruct fr; try exact F3.
     + destruct v'; exact F3.
-    + eapply fsame_trans; [exact F3|]. apply fsame_wake.
+    + eapply fsame_trans; [|apply fsame_wake]. exact F3.
   - pose proof (same_task_yield (set_frames st2 k2) y) as []. unfold fsame in *. simpl in *. congruence.
   - exact F2.
 Qed.
@@ -217,17 +219,21 @@ Proof.
   - destruct (todo st) as [|n] eqn:Et; [left; apply fsame_begin_iter|].
     unfold run_next. cbn [ready set_todo]. destruct (ready st) as [|h rd] eqn:Er; [left; reflexivity|].
     destruct (h_canc h) eqn:Ec; [left; reflexivity|].
+    set (st1 := set_ready (set_todo st n) rd).
+    assert (F0 : fsame st st1) by reflexivity.
     destruct (h_kind h) eqn:Ek; cbn [run_handle].
-    + left. exact (fsame_task_step _ None).
-    + left. apply fsame_run_cb.
-    + left. destruct (f_st (get_fut _ f)); try reflexivity; (apply same_fsame; apply same_fut_finish).
-    + left. apply fsame_scope_cancel.
-    + left. apply fsame_deliver.
-    + destruct (task_done _); [left; reflexivity|].
+    + left. exact (fsame_trans _ _ _ F0 (fsame_task_step st1 None)).
+    + left. exact (fsame_trans _ _ _ F0 (fsame_run_cb st1 f c)).
+    + left. destruct (f_st (get_fut st1 f)); try exact F0;
+        exact (fsame_trans _ _ _ F0 (same_fsame _ _ (same_fut_finish st1 f FRes))).
+    + left. exact (fsame_trans _ _ _ F0 (fsame_scope_cancel st1 s)).
+    + left. exact (fsame_trans _ _ _ F0 (fsame_deliver st1 s)).
+    + destruct (task_done st1); [left; exact F0|].
       destruct (t_cnt st) as [|c] eqn:E0.
       * right. split; [reflexivity|]. split; [reflexivity|]. exists n, h, rd, m. auto.
-      * left. eapply fsame_trans; [|apply fsame_task_cancel]. unfold task_uncancel, fsame. cbn. rewrite E0. reflexivity.
+      * left. eapply fsame_trans; [|apply fsame_task_cancel].
+        unfold task_uncancel, fsame. change (t_cnt st1) with (t_cnt st). rewrite E0. reflexivity.
     + left. reflexivity.
-    + left. destruct (task_done _); [reflexivity|]. eapply fsame_trans; [|apply fsame_task_cancel].
+    + left. destruct (task_done st1); [exact F0|]. eapply fsame_trans; [|apply fsame_task_cancel].
       unfold note_ext. destruct (in_shield _); reflexivity.
 Qed.
